@@ -39,6 +39,7 @@ def config(rng, tier):
         "fault_rate": rng.choice([0.0, 0.1, 0.25, 0.4]),
         "edits": rng.random() < 0.7,
         "interval_share": rng.choice([0.6, 0.6, 1.0, 0.0, 0.85]),
+        "maxn": rng.choice([8] * 16 + [24, 40, 120]),
     }
 
 
